@@ -28,6 +28,14 @@ func (r *Row) AddError(e error) {
 	r.ErrorContainer.AddError(e)
 }
 
+// AddErrorList records a list of errors against a row.
+func (r *Row) AddErrorList(el []error) {
+	if r.ErrorContainer == nil {
+		r.ErrorContainer = NewErrorContainer()
+	}
+	r.ErrorContainer.AddErrorList(el)
+}
+
 // NewRow creates a new Row.
 func NewRow() *Row {
 	return NewRowWithCapacity(10)
